@@ -133,7 +133,13 @@ impl GravsoftSpec {
                         1 => out.push('\t'),
                         2 => out.push_str("   "),
                         3 => {
-                            out.push_str(" # c");
+                            // a comment runs from '#' to the end of the line, whether or
+                            // not it is set off from the number by a blank
+                            out.push_str(match rng.below(3) {
+                                0 => "#c",
+                                1 => "# several words, 1 2 3 ",
+                                _ => " # c",
+                            });
                             out.push_str(&count.to_string());
                             out.push_str(eol);
                         }
